@@ -160,6 +160,10 @@ impl Prop for C18 {
         ]
     }
 
+    fn fuzz_targets(&self) -> Vec<(&'static str, u64)> {
+        vec![("fuzz_writer", 40_000)]
+    }
+
     fn run(&self, case: &Case, obs: &mut Obs) -> Check {
         let sorted = case.src.entries();
         let (seq, after_cut) = perturbed(&case.conf, &sorted, &case.perturbs);
